@@ -957,9 +957,180 @@ def replay(ctx, data):
     return 1
 
 
+# ------------------------------------------------------------------------------------------------ end to end (fake LAZ backend)
+def build_copc(rng):
+    """a small COPC file: root + 8 children + some grandchildren, chunks laid out in random order, one hierarchy page (EVLR)"""
+    from harness import fake_lazrs
+    fake_lazrs.install()
+    import laspy
+    import numpy as np
+    h = laspy.LasHeader(version="1.4", point_format=6)
+    h.scales = np.array([0.01, 0.01, 0.01])
+    h.offsets = np.array([0.0, 0.0, 0.0])
+    isz = h.point_format.size
+    keys = [(0, 0, 0, 0)] + [(1, d & 1, (d >> 1) & 1, (d >> 2) & 1) for d in range(8)]
+    for d in rng.sample(range(8), 3):
+        keys.append((2, d & 1, (d >> 1) & 1, (d >> 2) & 1))         # inside child (1,0,0,0)
+    nodes = []
+    for idx, (lv, x, y, z) in enumerate(keys):
+        side = 10000 >> lv                                           # in integer coordinates (root cube = [0, 10000)^3)
+        n = rng.randrange(1, 6)
+        rec = laspy.ScaleAwarePointRecord.zeros(n, header=h)
+        rec["X"] = [x * side + rng.randrange(side) for _ in range(n)]
+        rec["Y"] = [y * side + rng.randrange(side) for _ in range(n)]
+        rec["Z"] = [z * side + rng.randrange(side) for _ in range(n)]
+        rec["intensity"] = [idx * 100 + j for j in range(n)]
+        nodes.append({"key": (lv, x, y, z), "n": n, "chunk": fake_lazrs.encode_chunk(bytes(rec.memoryview()), isz)})
+    lazvlr = fake_lazrs.LazVlr.new_for_compression(6, 0, use_variable_size_chunks=True)
+    h.vlrs.append(laspy.VLR("copc", 1, "COPC info", b"\0" * 160))
+    h.vlrs.append(laspy.VLR("laszip encoded", 22204, "fake laszip", bytes(lazvlr.record_data())))
+    h.are_points_compressed = True
+    tmp = io.BytesIO()
+    h.write_to(tmp)
+    pos = h.offset_to_point_data
+    body = bytearray(struct.pack("<q", -1))
+    pos += 8
+    order = list(range(len(nodes)))
+    rng.shuffle(order)
+    for k in order:
+        if rng.random() < 0.3:                                       # unused bytes between chunks
+            gap = rng.randrange(1, 9)
+            body += bytes(rng.randrange(256) for _ in range(gap))
+            pos += gap
+        nodes[k]["offset"] = pos
+        body += nodes[k]["chunk"]
+        pos += len(nodes[k]["chunk"])
+    page = b"".join(struct.pack("<iiiiQii", *nd["key"], nd["offset"], len(nd["chunk"]), nd["n"]) for nd in nodes)
+    evlr_start = pos
+    evlr = b"\0\0" + b"copc".ljust(16, b"\0") + struct.pack("<HQ", 1000, len(page)) + b"hierarchy".ljust(32, b"\0") + page
+    info = struct.pack("<dddddQQdd", 50.0, 50.0, 50.0, 50.0, 1.0, evlr_start + 60, len(page), 0.0, 0.0) + b"\0" * 88
+    h.vlrs[0].record_data = info
+    h.start_of_first_evlr = evlr_start
+    h.number_of_evlrs = 1
+    h.point_count = sum(nd["n"] for nd in nodes)
+    h.mins = np.array([0.0, 0.0, 0.0])
+    h.maxs = np.array([100.0, 100.0, 100.0])
+    out = io.BytesIO()
+    h.write_to(out)
+    assert len(out.getvalue()) == h.offset_to_point_data
+    return out.getvalue() + bytes(body) + evlr, nodes
+
+
+def e2e_queries(rng):
+    import numpy as np
+    qs = [{"level": None, "bounds": None}, {"level": 1, "bounds": None}, {"level": [1, 3], "bounds": None}]
+    for _ in range(3):
+        lo = [rng.choice([0.0, 50.0]) for _ in range(3)]
+        qs.append({"level": rng.choice([None, [0, 2], 2]), "bounds": [lo, [lo[0] + 50.0, lo[1] + 50.0, rng.choice([lo[2] + 50.0, 100.0])]]})
+    return qs
+
+
+def e2e_query(copc, reader, q):
+    import numpy as np
+    lv = q["level"]
+    if isinstance(lv, list):
+        lv = range(lv[0], lv[1])
+    b = None
+    if q["bounds"] is not None:
+        b = copc.Bounds(mins=np.array(q["bounds"][0]), maxs=np.array(q["bounds"][1]))
+    return reader.query(bounds=b, level=lv).array.tobytes()
+
+
+class FailStarts:
+    """fails every request that starts at one of the given offsets"""
+
+    def __init__(self, starts):
+        self.starts = set(starts)
+
+    def __contains__(self, req):
+        return req[0] in self.starts
+
+
+def e2e_run(raw, q, strategy, workers, fail_starts, schedule=None, policy=None):
+    from harness import fake_lazrs
+    fake_lazrs.install()
+    import laspy.copc as copc
+    local = e2e_query(copc, copc.CopcReader(io.BytesIO(raw)), q)
+    world = World(raw, ())
+    world.failing = FailStarts(fail_starts)
+
+    def fn(p):
+        src = p.stream_cls("http://fake/e2e.copc.laz")
+        rd = p.copc.CopcReader(src, http_num_threads=workers, _http_strategy=strategy)
+        return e2e_query(p.copc, rd, q)
+    mode = "queue" if strategy == "queue" else "exec"
+    res = controlled_call(mode, world, fn, schedule, policy, seek_yields=(mode == "exec"))
+    failed = [r for r in res["requests"] if r in world.failing]
+    return local, res, failed
+
+
+def e2e_oracle(local, res, failed):
+    if res["problem"] is not None:
+        return "e2e: query over http blocks (" + res["problem"][0] + ")", str(res["problem"][1])
+    if res["leaked"] or not all(res["exited"]):
+        return "e2e: thread still alive after the query", f"{res['leaked']} exited={res['exited']}"
+    out = res["outcome"]
+    if not failed:
+        if out[0] != "returned":
+            return "e2e: query over http raises although no request failed", str(short(out))
+        if out[1] != local:
+            return "e2e: query over http returns other points than the local file", f"{len(out[1])} bytes vs {len(local)} bytes, first difference at {next((k for k in range(min(len(out[1]), len(local))) if out[1][k] != local[k]), min(len(out[1]), len(local)))}"
+    else:
+        if out[0] == "returned":
+            return "e2e: failed request swallowed by the query", f"failed {failed}"
+        if out[0] != "raised" or out[1] not in failed:
+            return "e2e: failed request surfaced as something else", str(short(out))
+    return None
+
+
 def e2e(ctx):
-    return []
+    """CopcReader.query over the fake HTTP source vs the same query on the local bytes (fake_lazrs as the LAZ backend)"""
+    try:
+        from harness import fake_lazrs  # noqa
+    except Exception:
+        ctx.notes.append("end-to-end query comparison skipped: harness/fake_lazrs is not available")
+        return []
+    rng = ctx.rng
+    found = []
+    runs = 0
+    for _ in range(ctx.n(2, 8)):
+        raw, nodes = build_copc(rng)
+        for q in e2e_queries(rng):
+            for strategy in ("queue", "executor"):
+                starts = []
+                for with_failure in (False, True):
+                    if with_failure and not starts:
+                        continue
+                    fail = [rng.choice(starts)] if with_failure else []
+                    workers = rng.choice([1, 2, 3, 8])
+                    prio = LABELS[:]
+                    rng.shuffle(prio)
+                    pol = make_policy(prio, rng.choice(["low", "high"]), rng.choice([0.0, 0.5, 1.0]), rng)
+                    local, res, failed = e2e_run(raw, q, strategy, workers, fail, policy=pol)
+                    offs = {nd["offset"] for nd in nodes}
+                    starts = sorted({r[0] for r in res["requests"] if r[0] in offs})
+                    runs += 1
+                    ctx.case(("e2e", hash(raw), str(q), strategy, workers, tuple(fail), tuple(res["decisions"])),
+                             nontrivial=len(set(res["decisions"])) >= 3)
+                    ctx.count("e2e:" + strategy + (":failing" if failed else ""))
+                    ctx.count(f"e2e:ranges:{len(starts)}")
+                    bad = e2e_oracle(local, res, failed)
+                    if bad is not None and not any(f["kind"] == bad[0] for f in found):
+                        found.append({"kind": bad[0], "observed": bad[1],
+                                      "input": {"strategy": "e2e", "http_strategy": strategy, "file_hex": raw.hex(), "query": q,
+                                                "workers": workers, "fail_starts": fail, "schedule": res["decisions"]},
+                                      "expected": "the same point records as CopcReader.query on the local bytes" if not failed
+                                      else f"the error of a failed request {failed}"})
+    ctx.extra["end_to_end_queries"] = runs
+    return found
 
 
 def e2e_replay(inp):
-    return 0
+    raw = bytes.fromhex(inp["file_hex"])
+    local, res, failed = e2e_run(raw, inp["query"], inp["http_strategy"], inp["workers"], inp["fail_starts"], schedule=list(inp["schedule"]))
+    bad = e2e_oracle(local, res, failed)
+    if bad is None:
+        print("not reproduced")
+        return 0
+    print("REPRODUCED:", bad[0], "--", bad[1])
+    return 1
